@@ -77,6 +77,13 @@ class C06(Prop):
                 # another store of the same process (another database file) is written to before many of the operations
                 h["neighbour"] = sorted(rng.sample(range(len(h["ops"])), min(len(h["ops"]), rng.randint(5, 40))))
             out.append(("view", {"k": "view", **h}))
+        # the ordinary upgrade situation: a store at its default location next to a legacy database; the migrated buckets
+        # are deleted, the process ends without a clean shutdown, the store is opened again
+        from . import c14
+
+        for _, c in c14.PROP.gen(Ctx(ctx.tier, ctx.seed))[: ctx.pick(60, 300)]:
+            if c["mode"] == "same" and c["buckets"] and not c.get("both_profiles"):
+                out.append(("migrated-then-deleted", {"k": "migrated", "c14": {**c, "emptied": True}}))
         # crash runs: every kill point of a few histories; the first two are directed: (a) a bucket holding more events
         # than the commit threshold is deleted while writes are buffered (a commit between its two DELETEs would split it),
         # (b) a bulk insert mixing upserts and new events, and a rejected replace, are followed by more operations
@@ -134,6 +141,11 @@ class C06(Prop):
     def impl(self, case):
         if case["k"] == "view":
             return commitlib.run_history(case)
+        if case["k"] == "migrated":
+            from . import c14
+
+            o = c14.PROP.impl(case["c14"])
+            return {"migrated": sorted(o["new"]), "after_delete_and_reopen": o["emptied"]}
         be = case["backend"]
         if be == "sqlite":
             full = commitlib.run_history(case)
@@ -195,7 +207,7 @@ class C06(Prop):
     def model_lines(self, case, io):
         if case["k"] == "view":
             return commitlib.model_lines(case, io)
-        if case["backend"] != "sqlite":
+        if case["k"] == "migrated" or case["backend"] != "sqlite":
             return []
         j = io["op"]
         L = [f"commit reset {1 if case.get('lazy', True) else 0} {io['start']}"]
@@ -209,7 +221,7 @@ class C06(Prop):
     def model_out(self, case, answers, io):
         if case["k"] == "view":
             return commitlib.model_out(case, answers, io)
-        if case["backend"] != "sqlite":
+        if case["k"] == "migrated" or case["backend"] != "sqlite":
             return None
         j = io["op"]
         base = 1 + max(j, 0)
@@ -240,6 +252,11 @@ class C06(Prop):
     # ---- the property ------------------------------------------------------------------------------------
     def oracle(self, case, out):
         if out is None or "expected" in out:
+            return None
+        if case["k"] == "migrated":
+            if out.get("after_delete_and_reopen"):
+                return (f"delete_bucket returned for each of {out['migrated']}, the connection was dropped and the store opened "
+                        f"again: it holds {out['after_delete_and_reopen']}")
             return None
         if case["k"] == "view":
             if "resolved" not in out:
@@ -313,7 +330,7 @@ class C06(Prop):
         return f"crash inside op {j}: reopened database differs from the state before and after the operation"
 
     def nontrivial(self, case, out):
-        if case["k"] == "crash":
+        if case["k"] in ("crash", "migrated"):
             return True
         return any(s["own"] != s["second"] for s in out["steps"])
 
@@ -321,6 +338,8 @@ class C06(Prop):
         return json.dumps(case, sort_keys=True)
 
     def features(self, case, out):
+        if case["k"] == "migrated":
+            return [f"migrated-store:{len(out['migrated'])}-buckets"]
         if case["k"] == "crash":
             op = out["resolved"][out["op"]][0] if out["op"] >= 0 else "init"
             return [f"crash:{case['backend']}:in-{op}"]
